@@ -104,6 +104,15 @@ TEXT.update({
                     'with a single-key mapping that occurs in no output is never down (the only keys a step presses are outputs of the fired mapping or the pressed key itself when nothing fires, and a single-key mapping '
                     'always fires: lemma_single_fires); (c) a step for a release emits only releases; (d) a held key that is a trigger key of a mapping in effect is an output key of a mapping in effect (J4, needs the D6 repair).'),
         design_ref='6.2', level_note=MAPPER_NOTE),
+    'C04': dict(
+        technique='deductive verification (Verus): the held set at the instant of the final output key press is an invariant/postcondition chain release_action_mappings (completeness: no modifier of a key-producing mapping stays held) -> add_new_mapping (loop invariant over the output keys) -> newly_press -> Mapper::step on the real code, lifted by the verified client universal_client_c04',
+        level_text=('Proof, unbounded, per step of every history from every reachable state of every layout without absorbing lists: when the mapping that fires is key-producing (its output ends in a non-modifier key), then at every '
+                    'position p of the step\'s event list where that final key is pressed, with h = fold of the events before p over what was down: every modifier the mapping lists is in h, and every other modifier in h is '
+                    'physically held and not a trigger key of the mapping, or is an output key of a layout mapping whose output does not end in a non-modifier key and whose trigger keys are all physically held '
+                    '(c04_statement in spec/trace.rs). Carried by: release_action_mappings ensures ram_done (no output of a key-producing mapping in effect that carries modifiers is still held for a mapping), '
+                    'add_new_mapping keeps c04_st over its output loop and establishes c04_anm in the iteration of the final key, newly_press and Mapper::step pass it on (c04_instant). '
+                    'One helper contract is assumed (is_any_modifier) and validated by a bounded enumeration on every run.'),
+        design_ref='6.4', level_note=MAPPER_NOTE + ' The contract of is_any_modifier is assumed (external_body) and backed only by a bounded comparison.'),
     'C05': dict(
         technique='deductive verification (Verus): lift-scope / drop-scope postconditions carried from release_action_mappings, release_absorbed_keys, remove_mapping, add_new_mapping, newly_press, newly_release to Mapper::step on the real code, lifted by the verified client universal_client_c05',
         level_text=('Proof, unbounded, per step of every history from every reachable state: every Released(x) a press step emits satisfies Mapper::lift_scope (x is an output of a key-producing mapping in effect that '
